@@ -182,7 +182,9 @@ PROPS["C13"] = dict(
 
 PROPS["C11"] = dict(
     modules=["Sth.Props.C01", "Sth.Props.C08", "Sth.Props.C11"],
-    theorems=list(CORE_RL) + ["Sth.C11_index_file_released", "Sth.C11_index_released_stays", "Sth.C11_index_reap_free_file"],
+    theorems=list(CORE_RL) + ["Sth.C11_index_file_released", "Sth.C11_index_released_stays", "Sth.C11_index_reap_free_file", "Sth.C11_primary_file_released",
+                                "Sth.C11_no_growth_index", "Sth.C11_no_growth_primary", "Sth.C11_relocation_pools_a_copy", "Sth.C11_reap_pools_at_most_two",
+                                "Sth.C11_fixed_point_primary", "Sth.C11_low_use_visit"],
     runs=[dict(engine="seq", quick=200, thorough=10000, extra=["-profile", "c11"], nontrivial=["c11-dead-primary-files", "c11-unreferenced-index-files"]),
           dict(engine="crash", quick=48, thorough=600, extra=["-profile", "c11d"], nontrivial=["c11-drain-after-recovery"])],
     crash_lines=True,
@@ -196,6 +198,8 @@ PROPS["C11"] = dict(
          "left behind and eight cycles of both collectors run (low-use threshold 50); no non-current primary file may then be left "
          "without a record in use or with a free share at or above the threshold - records that no index entry ever named (crash "
          "between the primary's and the index's flush) must be found unreferenced by relocation and freed. "
+         "35% of the histories run the collector with its own time limit expiring in every cycle (one file per cycle after the freelist "
+         "phase; bound = non-current files at the mark + 2 cycles). "
          "Non-trivial = distinct history with at least one dead primary file or unreferenced index file at the mark / a drained recovery.",
     assumptions=["cycles are invoked synchronously (the timers that start them are not modelled)",
                  "no-growth is measured at flushed states: the repaired collector flushes the primary before applying the freelist"],
